@@ -205,6 +205,8 @@ def main():
     kb = fn_body(pr, "kill_and_reap_child_proc_group", "process::kill_and_reap_child_proc_group")
     facts.append("Definition reap_tolerates_echild : bool := %s." % ("true" if (
         "Ok(())=>matchwait::waitpid(pgid,None){Ok(_)=>Ok(())," in kb and "Err(Errno::ECHILD)=>Ok(())," in kb) else "false"))
+    facts.append("Definition reap_kills_with_sigkill : bool := %s." %
+                 ("true" if ("matchsignal::killpg(pgid,Signal::SIGKILL){" in kb and "SIGTERM" not in kb) else "false"))
     guard = re.search(r"impl\s+Drop\s+for\s+(\w+)", pr)
     guard_used = bool(guard and re.search(r"let\s+_\w*\s*=\s*%s\s*[\(\{]" % guard.group(1), pr))
     facts.append("Definition process_group_guard_present : bool := %s." % ("true" if guard_used else "false"))
